@@ -637,7 +637,10 @@ Lemma session_attributes_custom svc s :
   exists pre post, session_attributes svc s = pre ++ ss_custom s ++ post.
 Proof.
   unfold session_attributes.
-  eexists (_ ++ _ ++ _ ++ _ ++ _ ++ _ ++ _ ++ _), _.
+  match goal with
+  | |- exists pre post, ?a0 ++ ?a1 ++ ?a2 ++ ?a3 ++ ?a4 ++ ?a5 ++ ?a6 ++ ?a7 ++ ?c ++ ?rest = _ =>
+      exists (a0 ++ a1 ++ a2 ++ a3 ++ a4 ++ a5 ++ a6 ++ a7), rest
+  end.
   rewrite <- !app_assoc. reflexivity.
 Qed.
 
@@ -647,7 +650,7 @@ Lemma session_attributes_groups svc s :
      (session_attributes svc s).
 Proof.
   intro H. unfold session_attributes.
-  repeat (apply in_or_app; right). apply in_or_app. left.
+  do 9 (apply in_or_app; right). apply in_or_app. left.
   destruct (ss_groups s); [contradiction|]. simpl. left. reflexivity.
 Qed.
 
@@ -687,7 +690,7 @@ Proof.
   intro H. apply respond_inv in H. cbv zeta in H.
   destruct H as (ael & Hm & _ & -> & Hin & _). rewrite Hin.
   unfold response_of, sign. cbn. repeat split; auto.
-  - apply mem_str_In. exact Hm.
+  - apply (proj1 (mem_str_In _ _)) in Hm. exact Hm.
   - intros k Hk. unfold signer_key. rewrite Hk. reflexivity.
   - intro Hk. unfold signer_key. rewrite Hk. reflexivity.
   - intro Hk. unfold effective_method. rewrite Hk. reflexivity.
@@ -738,7 +741,7 @@ Lemma subseq_b_app {A} (eq : A -> A -> bool) (R : forall x, eq x x = true) pre s
   subseq_b eq small (pre ++ small ++ post) = true.
 Proof.
   induction pre as [|y r IH]; simpl.
-  - induction small as [|x s' IHs]; simpl; [reflexivity|]. rewrite R. exact IHs.
+  - induction small as [|x s' IHs]; simpl; [destruct post; reflexivity|]. rewrite R. exact IHs.
   - apply (proj1 (subseq_b_skip_tail eq _)). exact IH.
 Qed.
 
@@ -771,11 +774,9 @@ Proof.
     rewrite !seqb_refl. simpl. rewrite seqb_refl. reflexivity.
   - unfold times_b. rewrite T4, T5, T6, !Z.eqb_refl.
     destruct (now - max_clock_skew cfg <? rq_issue req) eqn:El.
-    + destruct T2 as [-> ->]; [lia|]. rewrite !Z.eqb_refl. simpl.
-      rewrite andb_true_r. apply Z.leb_le. lia.
-    + destruct T3 as [-> ->]; [lia|]. rewrite !Z.eqb_refl. simpl.
-      rewrite andb_true_r. apply Z.leb_le. lia.
-  - unfold attrs_b. rewrite A1, A2, A3, !seqb_refl, Z.eqb_refl. simpl.
+    + destruct T2 as [-> ->]; [lia|]. rewrite !Z.eqb_refl. cbn [andb]. rewrite ?andb_true_r. apply Z.leb_le. lia.
+    + destruct T3 as [-> ->]; [lia|]. rewrite !Z.eqb_refl. cbn [andb]. rewrite ?andb_true_r. apply Z.leb_le. lia.
+  - unfold attrs_b. rewrite A1, A2, A3, !seqb_refl, Z.eqb_refl. cbn [andb].
     apply andb_true_iff; split; [apply andb_true_iff; split|].
     + apply forallb_forall. intros a Ha. apply forallb_forall. intros v Hv.
       apply mem_str_In. eapply A4; eauto.
